@@ -182,6 +182,14 @@ func runJob(j job) jobResult {
 	expensive := map[int]int{}
 	expensiveIdx := map[int][]int{}
 	for attempt := 0; attempt < 600; attempt++ {
+		// nothing left in the resume case? (known for cases with a fixed number of inputs)
+		for resume < len(j.cases) {
+			if n := knownCount(j.cases[resume]); n >= 0 && resumeIdx >= n {
+				resume, resumeIdx = resume+1, 0
+				continue
+			}
+			break
+		}
 		if resume >= len(j.cases) {
 			return res
 		}
@@ -291,6 +299,21 @@ func runJob(j job) jobResult {
 	return res
 }
 
+// knownCount: number of inputs of a case when the parent can know it, else -1
+func knownCount(cs caseSpec) int {
+	switch {
+	case cs.Only >= 0:
+		return cs.Only + 1
+	case cs.Target == "edf":
+		return edfCaseCount(cs)
+	case cs.Class == "frame-len":
+		return 1
+	case cs.N > 0:
+		return cs.N
+	}
+	return -1
+}
+
 // confirmAlone runs one input of a case alone in a fresh child and classifies what happens to that child
 func confirmAlone(j job, ci, idx int, base string, attempt int) (sig, what, excerpt string) {
 	cs := j.cases[ci]
@@ -380,6 +403,8 @@ func main() {
 	if outDir == "" {
 		outDir = "/verif/out/C16"
 	}
+	// job files of this invocation live in a directory of their own (a replay may run beside a full run)
+	outDir = filepath.Join(outDir, fmt.Sprintf("run%d", os.Getpid()))
 	os.MkdirAll(outDir, 0o755)
 	registerTypes()
 	setupEDF()
@@ -617,11 +642,11 @@ func topKeysAll(m map[string]int64, n int) []string { return topKeys(m, n) }
 
 func edfJobs() []job {
 	var jobs []job
-	const mem = 512 << 10     // KiB: directed cases: 512 MiB of data segment (RLIMIT_DATA) on top of what the child has at start
-	const memBulk = 192 << 10 // KiB: bulk cases (inputs of a few hundred bytes, bound about 68 MiB)
+	const mem = 1536 << 10    // KiB: directed cases: 1.5 GiB of address space (RLIMIT_AS) on top of what the child has mapped at start
+	const memBulk = 640 << 10 // KiB: bulk cases (inputs below 1 KiB, bound about 68 MiB)
 	wall := 10 * time.Minute
 	// directed suspicions, one child each (some of them end the child)
-	thoroughOnly := map[string]bool{"array-of-zero-size-nested": true, "any-chain-24m": true, "array-of-empty-struct-2^32": true, "array-typedesc-1g-uint64": true, "regmap-count-2^28": true}
+	thoroughOnly := map[string]bool{"array-of-zero-size-nested": true, "array-of-empty-struct-2^32": true, "array-typedesc-1g-uint64": true, "regmap-count-2^28": true}
 	for i, d := range directedEDF() {
 		if thoroughOnly[d.name] && !hk.Thorough() {
 			continue
@@ -650,7 +675,7 @@ func edfJobs() []job {
 			batches int
 			n       int
 		}
-		m := hk.Pick(1, 15)
+		m := hk.Pick(1, 10)
 		for _, r := range []rc{{"bitflip", 5 * m, 1000}, {"edits", 8 * m, 1000}, {"splice", 3 * m, 1000}, {"cacheid", 3 * m, 1000}, {"prng", 1 * m, 1000},
 			{"prngtags", 5 * m, 1000}, {"typedesc", 6 * m, 1000}, {"typedesc-big", m, 40}, {"anywrap", 3 * m, 1000}} {
 			for b := 0; b < r.batches; b++ {
